@@ -137,10 +137,23 @@ class AEnzymeV(object):
 class AMap(object):
     """Symbolic dict: an unknown base content plus explicit updates."""
 
-    def __init__(self, base: str, adds=(), removes=()):
+    def __init__(self, base: str, adds=(), removes=(), make_value=None):
         self.base = base
         self.adds = list(adds)
         self.removes = list(removes)
+        self.make_value = make_value
+        self.values_cache = {}
+        self.known = {}
+
+    def value_for(self, key):
+        """the value stored under ``key`` in the unknown base content"""
+        k = repr(key)
+        if k not in self.values_cache:
+            if self.make_value is not None:
+                self.values_cache[k] = self.make_value(self, key)
+            else:
+                self.values_cache[k] = Term("lookup", Term(self.base), key if isinstance(key, Term) else Term(repr(key)))
+        return self.values_cache[k]
 
     def key(self):
         return (self.base, tuple((repr(k), repr(v)) for k, v in self.adds), tuple(repr(k) for k in self.removes))
@@ -172,12 +185,12 @@ class AList(object):
 
     _count = 0
 
-    def __init__(self, items=(), depth: int = 0):
+    def __init__(self, items=(), depth: int = 0, origin: str = ""):
         self.items = list(items)
         self.depth = depth
         self.generic = False
-        AList._count += 1
-        self.uid = AList._count
+        self.min_len = 0
+        self.uid = origin or "anon"
 
     def __repr__(self):
         return "%s%r" % ("generic" if self.generic else "", self.items)
@@ -579,7 +592,14 @@ class Interp(object):
             for k, _ in container.adds:
                 if isinstance(k, Term) and k == item:
                     return True
-            return self.path.choose("haskey %r %r" % (container, item))
+            for k in container.removes:
+                if isinstance(k, Term) and k == item:
+                    return False
+            kk = repr(item)
+            if kk not in container.known:
+                container.known[kk] = self.path.choose("haskey %s %r" % (container.base, item))
+                self.path.effects.append(("map-haskey", container.base, item))
+            return container.known[kk]
         if isinstance(container, dict):
             for k in container:
                 if k is item or (isinstance(k, Term) and k == item):
@@ -774,6 +794,25 @@ class Frame(object):
             raise LoopBreak()
         if isinstance(st, ast.Assert):
             return
+        if isinstance(st, ast.Delete):
+            for t in st.targets:
+                if isinstance(t, ast.Subscript) and not isinstance(t.slice, ast.Slice):
+                    obj = self.expr(t.value)
+                    key = self.expr(t.slice)
+                    if isinstance(obj, AMap):
+                        map_getitem(self, obj, key)  # KeyError when absent
+                        obj.removes.append(key)
+                        obj.adds = [(k, v) for k, v in obj.adds if not (isinstance(k, Term) and k == key)]
+                        I.path.effects.append(("map-pop", obj.base, key))
+                        continue
+                    if isinstance(obj, dict) and _hashable(key) in obj:
+                        del obj[_hashable(key)]
+                        continue
+                elif isinstance(t, ast.Name) and t.id in self.env:
+                    del self.env[t.id]
+                    continue
+                self.unsupported(st, "del target")
+            return
         if isinstance(st, ast.With):
             # context managers used by the repo only set warning filters
             for item in st.items:
@@ -822,7 +861,7 @@ class Frame(object):
                 self.I.path.effects.append(("setitem", obj, key, v))
                 return
             if isinstance(obj, AMap):
-                self.I.path.effects.append(("setitem", obj, key, v))
+                self.I.path.effects.append(("map-store", obj.base, key, v, obj.known.get(repr(key))))
                 obj.adds.append((key, v))
                 return
             self.unsupported(target, "subscript store on %r" % (obj,))
@@ -861,10 +900,13 @@ class Frame(object):
             items = list(it.keys())
         elif isinstance(it, ARange):
             # one generic iteration
+            I.path.effects.append(("loop", "range", it.lo, it.hi))
+            if not I.ge0(Aff.of(it.hi) - Aff.of(it.lo) - 1):
+                self.block(st.orelse)
+                return
             i = Aff.sym("i")
             I.path.cons.add(i - Aff.of(it.lo))
             I.path.cons.add(Aff.of(it.hi) - i - 1)
-            I.path.effects.append(("loop", "range", it.lo, it.hi))
             items = [i]
             if st.orelse:
                 self.unsupported(st, "for/else over a range")
@@ -880,6 +922,11 @@ class Frame(object):
                 I.loop_depth -= 1
             return
         elif isinstance(it, ACollection):
+            used = {n.id for b in st.body for n in ast.walk(b) if isinstance(n, ast.Name)}
+            for nm, v in list(self.env.items()):
+                if isinstance(v, dict) and not v and nm in used:
+                    # a dict filled by the loop: after an unknown number of earlier iterations its content is unknown
+                    self.env[nm] = AMap("map:" + nm, make_value=I.hooks.get("map_value"))
             elem = it.make_elem()
             I.path.effects.append(("loop", it.name, elem))
             self.assign(st.target, elem)
@@ -897,7 +944,7 @@ class Frame(object):
             return
         elif isinstance(it, AMap):
             key = I.new_term("key")
-            it.adds.append((key, Term("lookup", Term(it.base), key)))
+            it.adds.append((key, it.value_for(key)))
             I.path.effects.append(("loop", "keys:" + it.base, key))
             self.assign(st.target, key)
             try:
@@ -1010,7 +1057,7 @@ class Frame(object):
         return tuple(self.expr(x) for x in e.elts)
 
     def e_List(self, e):
-        return AList([self.expr(x) for x in e.elts], self.I.loop_depth)
+        return AList([self.expr(x) for x in e.elts], self.I.loop_depth, origin="L%d" % e.lineno)
 
     def e_Dict(self, e):
         d = {}
@@ -1061,6 +1108,8 @@ class Frame(object):
                 self.unsupported(node, "module attribute")
             return self.from_binding(r, node)
         if isinstance(base, LibRef):
+            if base.dotted == "six" and a == "MAXSIZE":
+                return Aff.sym("MAXSIZE")
             return LibRef(base.dotted + "." + a)
         if isinstance(base, AObj):
             return I.get_attr_of_obj(base, a, node)
@@ -1173,6 +1222,11 @@ class Frame(object):
             self.unsupported(node, "index into mapped list")
         if isinstance(base, Term):
             return Term("getitem", base, idx if isinstance(idx, Term) else Term(repr(idx)))
+        if isinstance(base, AStruct) and base.kind == "qualifiers":
+            k = _hashable(idx)
+            if k in base.fields:
+                return base.fields[k]
+            raise RaiseSig(AExc("KeyError", [idx], {}))
         if isinstance(base, LibRef):
             return base  # typing.Generic[...]
         self.unsupported(node, "subscript of %r" % (base,))
@@ -1211,6 +1265,11 @@ class Frame(object):
             if isinstance(op, ast.FloorDiv):
                 return I.floordiv(la, ra)
             self.unsupported(node, "integer operation")
+        hook = I.hooks.get("binop")
+        if hook is not None:
+            res = hook(self, op, l, r, node)
+            if res is not NotImplemented:
+                return res
         if isinstance(op, ast.Add):
             return self.concat(l, r, node)
         if isinstance(op, ast.Mult):
@@ -1490,6 +1549,16 @@ class Frame(object):
         return obj
 
 
+class AFormat(object):
+    """fmt.format(*args) with symbolic integer arguments"""
+
+    def __init__(self, fmt: str, args, kwargs):
+        self.fmt, self.args, self.kwargs = fmt, args, kwargs
+
+    def __repr__(self):
+        return "%r.format(%s)" % (self.fmt, ", ".join(map(repr, self.args)))
+
+
 class AMapGen(object):
     """dict whose every entry is described by one generic value."""
 
@@ -1595,8 +1664,9 @@ def lib_getattr(fr: Frame, base, a: str, node):
     if isinstance(base, AStruct):
         if a in base.fields:
             return base.fields[a]
-        if base.kind in ("FeatureLocation", "CompoundLocation") and a == "parts":
-            return base.fields.get("parts_value", [base])
+        if base.kind in ("FeatureLocation", "CompoundLocation", "Location") and a == "parts":
+            pv = base.fields.get("parts_value")
+            return pv if pv is not None else AList([base])
         return Term(a, _t(base))
     if isinstance(base, AFeatList):
         if a in ("append", "extend"):
@@ -1633,6 +1703,8 @@ TERM_METHODS = {
 def lib_call_method(fr: Frame, bm: BoundMethod, args, kwargs, node):
     I = fr.I
     t, name = bm.target, bm.name
+    if bm.kind == "py":
+        return t(fr, args, kwargs, node)
     if bm.kind == "rematch":
         idx = args[0] if args else 0
         if isinstance(idx, Aff) and idx.is_const:
@@ -1678,6 +1750,11 @@ def lib_call_method(fr: Frame, bm: BoundMethod, args, kwargs, node):
             if name == "setdefault":
                 return Term("setdefault", t, *[_t(a) for a in args])
             return None
+        if name == "index" and len(args) == 1:
+            I.path.effects.append(("index-of", t, args[0]))
+            return Aff.sym("index(%r,%r)" % (t, args[0]))
+        if name == "find" and t.op == "setdefault" and t.args and repr(t.args[-1]) in ("[]", "Term([])"):
+            raise RaiseSig(AExc("AttributeError", ["'list' object has no attribute 'find'"], {}))
         return Term(name, t, *[_t(a) for a in args])
     if bm.kind == "map":
         return map_method(fr, t, name, args, kwargs, node)
@@ -1719,6 +1796,8 @@ def lib_call_method(fr: Frame, bm: BoundMethod, args, kwargs, node):
         if name == "format":
             if all(isinstance(a, (str, int)) for a in args) and not kwargs:
                 return t.format(*args)
+            if any(isinstance(a, Aff) for a in args):
+                return AFormat(t, list(args), dict(kwargs))
             return Term("format", Term(repr(t)), *[_t(a) for a in args])
         if name == "join":
             return Term("join", Term(repr(t)), _t(args[0]))
@@ -1744,9 +1823,13 @@ def map_getitem(fr: Frame, m: AMap, key):
         for k, v in reversed(m.adds):
             if isinstance(k, Term) and k == key:
                 return v
-    hit = I.path.choose("getitem %r[%r]" % (m, key), ["hit", "miss"])
-    if hit == "hit":
-        return Term("lookup", Term(m.base), key)
+    known = m.known.get(repr(key))
+    if known is None:
+        known = I.path.choose("getitem %s[%r]" % (m.base, key), ["hit", "miss"]) == "hit"
+        m.known[repr(key)] = known
+    I.path.effects.append(("map-getitem", m.base, key))
+    if known:
+        return m.value_for(key)
     raise RaiseSig(AExc("KeyError", [key], {}))
 
 
@@ -1765,15 +1848,14 @@ def map_method(fr: Frame, m, name, args, kwargs, node):
             return val
         if c == "present-same":
             return val
-        other = Term("other", Term("lookup", Term(m.base), key))
-        return other
+        return m.value_for(key)
     if name == "get":
         key = args[0]
         default = args[1] if len(args) > 1 else None
         I.path.effects.append(("map-get", m.base, key))
         c = I.path.choose("get %r" % (key,), ["hit", "miss"])
         if c == "hit":
-            return Term("lookup", Term(m.base), key)
+            return m.value_for(key)
         return default
     if name == "pop":
         key = args[0]
@@ -1781,7 +1863,7 @@ def map_method(fr: Frame, m, name, args, kwargs, node):
         c = I.path.choose("pop %r" % (key,), ["hit", "miss"])
         if c == "hit":
             m.removes.append(key)
-            return Term("lookup", Term(m.base), key)
+            return m.value_for(key)
         if len(args) > 1:
             return args[1]
         raise RaiseSig(AExc("KeyError", [key], {}))
@@ -1811,8 +1893,8 @@ def lib_call(fr: Frame, dotted: str, args, kwargs, node):
         if isinstance(v, AList):
             if not v.generic:
                 return len(v.items)
-            t = Aff.sym("len:list%d" % v.uid)
-            I.path.cons.add(t)
+            t = Aff.sym("len:list@%s" % v.uid)
+            I.path.cons.add(t - v.min_len)
             return t
         if isinstance(v, Term):
             return Term("len", v)
@@ -1830,7 +1912,7 @@ def lib_call(fr: Frame, dotted: str, args, kwargs, node):
     if dotted == "builtins.int":
         v = args[0]
         if isinstance(v, Term):
-            return Term("int", v)
+            return Aff.sym("int(%r)" % (v,))
         if isinstance(v, (int, str)):
             return int(v)
     if dotted == "builtins.isinstance":
@@ -1915,6 +1997,8 @@ def lib_call(fr: Frame, dotted: str, args, kwargs, node):
         f = dict(zip(names, args))
         f.update(kwargs)
         return AStruct("SeqFeature", **f)
+    if dotted == "re.compile" and args and isinstance(args[0], str):
+        return AStruct("regex", pattern=args[0])
     if dotted == "copy.deepcopy":
         return Term("deepcopy", _t(args[0])) if not isinstance(args[0], (ASeq,)) else args[0]
     fr.unsupported(node, "library call %s" % dotted)
